@@ -557,6 +557,13 @@ func Run(dir, tier string, seed int64) error {
 		}
 		// -- metadata: organisation and contact person from the configuration
 		if rep := env.Do(idp.ReqSpec{Method: http.MethodGet, Path: "/metadata"}.HTTP()); rep.Code == 200 {
+			if c, ok := MetadataCase(id, rep.Body, sso.IssuerURL, MetaParams{Org: &[3]string{h + "#on", h + "#od", h + "#ou"},
+				Contact: &[6]string{"technical", h + "#cc", h + "#cg", h + "#cs", h + "#ce", h + "#ct"}}); ok {
+				run.Res.Evaluations++
+				run.Count("built=metadata")
+				run.AddCase(id, "KBuiltX "+c, map[string]interface{}{"flow": "metadata", "builder": "Config.getMetadata", "input": desc(), "document": string(rep.Body)})
+				id++
+			}
 			mvals := []string{h + "#on", h + "#od", h + "#ou", h + "#cc", h + "#cg", h + "#cs", h + "#ce", h + "#ct"}
 			if _, ok := checkDoc("metadata", rep.Body, mvals, desc()); ok {
 				var ed md.EntityDescriptorType
